@@ -293,7 +293,7 @@ static void op_saveload(void) {
     char path[128]; snprintf(path, sizeof path, "listtbl-%d-%d.sav", VF.shard, (int)getpid());
     vf_log("save+load[encode=%d,sep=%c] n=%d", encode, sep, MN);
     if (!T->save(T, path, sep, encode)) { judge("C08", "save-failed", "save failed errno=%d", errno); return; }
-    bool into_nonempty = rng_chance(&R, 1, 3);
+    bool into_nonempty = MN <= 400 && rng_chance(&R, 1, 3);   /* loading into the non-empty table doubles it: unchecked, a long history reached 64902 entries and the (quadratic) sort of that table ran into the per-operation CPU budget */
     int before = MN;
     /* snapshot of the model entries to append */
     ent_t *snap = hm_alloc(sizeof(ent_t) * (size_t)(MN + 1));
